@@ -61,6 +61,8 @@ func (o op) String() string {
 		return "G"
 	case 'R':
 		return "R"
+	case 'F':
+		return "F"
 	case 'A':
 		return fmt.Sprintf("A%d", o.N)
 	case 'S':
@@ -106,6 +108,8 @@ func parseOps(s string) []op {
 			out = append(out, op{K: 'G'})
 		case 'R':
 			out = append(out, op{K: 'R'})
+		case 'F':
+			out = append(out, op{K: 'F'})
 		case 'A', 'S':
 			out = append(out, op{K: f[0], N: ints()[0]})
 		default:
@@ -680,6 +684,27 @@ func runCaseAttempt(g *dag.Graph, ops []op, seed uint64, attempt int) {
 			for n := range tr.digidx {
 				tr.closure(n, expKnown)
 			}
+		case 'F':
+			// the layout as other tools write it: index.json names only the tagged descriptors;
+			// then a new Store on the directory
+			if ferr := stripIndex(root); ferr != nil {
+				panic(ferr)
+			}
+			ns, nerr := oci.New(root)
+			if nerr != nil {
+				err = nerr
+			} else {
+				store = ns
+				w.store = ns
+			}
+			tr.autogc = true
+			kind = "foreign-index"
+			expDig = map[int]bool{}
+			expKnown = map[int]bool{}
+			for _, n := range tr.tags {
+				expDig[n] = true
+				tr.closure(n, expKnown)
+			}
 		case 'D':
 			err, hung = w.guarded(func(c context.Context) error { return store.Delete(c, g.Nodes[o.N].Desc) })
 			kind = "delete"
@@ -905,6 +930,32 @@ func runCaseAttempt(g *dag.Graph, ops []op, seed uint64, attempt int) {
 	}
 }
 
+// stripIndex rewrites index.json so that it names only the entries that carry a reference
+// name (what a tool that lists just the tagged top-level manifests writes).
+func stripIndex(root string) error {
+	p := filepath.Join(root, "index.json")
+	data, err := os.ReadFile(p)
+	if err != nil {
+		return err
+	}
+	var ix ocispec.Index
+	if err := json.Unmarshal(data, &ix); err != nil {
+		return err
+	}
+	kept := []ocispec.Descriptor{}
+	for _, d := range ix.Manifests {
+		if d.Annotations[ocispec.AnnotationRefName] != "" {
+			kept = append(kept, d)
+		}
+	}
+	ix.Manifests = kept
+	out, err := json.Marshal(ix)
+	if err != nil {
+		return err
+	}
+	return os.WriteFile(p, out, 0o644)
+}
+
 var repeats = 1
 
 // keepLiveDigests: does GC keep the digest-only reference of a descriptor that stays in the
@@ -991,7 +1042,12 @@ func execOnly(g *dag.Graph, ops []op) (string, bool) {
 			os.MkdirAll(filepath.Dir(p), 0o755)
 			os.WriteFile(p, []byte(fmt.Sprintf("stray %d", o.N)), 0o644)
 			strays[o.N] = true
-		case 'R':
+		case 'R', 'F':
+			if o.K == 'F' {
+				if ferr := stripIndex(root); ferr != nil {
+					panic(ferr)
+				}
+			}
 			ns, nerr := oci.New(root)
 			if nerr != nil {
 				err = nerr
@@ -1141,6 +1197,17 @@ func genCase(r *common.Rand) (*dag.Graph, []op) {
 		if keepLiveDigests && r.Chance(1, 12) {
 			// reopen at an arbitrary point (index.json is kept current by AutoSaveIndex)
 			ops = append(ops, op{K: 'R'})
+		}
+		if keepLiveDigests && r.Chance(1, 16) {
+			// a layout whose index names only the tagged manifests, then often a Delete
+			// with AutoGC off: nested manifests that lose their last predecessor must stay listed
+			ops = append(ops, op{K: 'F'})
+			if r.Chance(2, 3) {
+				ops = append(ops, op{K: 'A', N: r.Intn(2)})
+				if len(manifests) > 0 {
+					ops = append(ops, op{K: 'D', N: common.Pick(r, manifests)})
+				}
+			}
 		}
 	}
 	if r.Chance(1, 2) {
